@@ -14,9 +14,10 @@ BASE = {
     "session": {"w": 10, "fresh": 1.5, "ro": 0.6, "out": 0.3, "armed_out": 0.2, "stale": 0.3},
     "end": {"exit": 8, "exit_exc": 1, "kill": 1},
     "ops": {"add": 10, "remove": 6, "replace": 4, "set": 3, "reput": 1, "edit_restore": 1, "read_obs": 1, "read_w": 1,
-            "read_twice": 0.3,
+            "read_twice": 0.3, "same_size_switch": 0.3, "reject_some": 0.5, "enospc": 0.0,
             "reject_all": 0.0, "mode_matrix": 0.0, "decode_twice": 0.3, "copy": 0.2},
-    "between": {"scribble": 0.0, "read_obs": 0.3, "clobber": 0.05, "open_bad": 0.03, "copy": 0.1, "sig_flip": 0.02},
+    "between": {"scribble": 0.0, "read_obs": 0.3, "clobber": 0.05, "open_bad": 0.03, "copy": 0.1, "sig_flip": 0.02,
+                "truncated_decode": 0.0},
     "kinds": gen.KINDS,
     "opaque": 0.5,  # probability that a foreign file carries opaque blocks
     "big": 0.02,
@@ -42,7 +43,7 @@ def profile(prop):
         p["opaque"] = 0.8
         p["ops"].update(replace=7, set=4, remove=8)
     elif prop == "C01":
-        p["ops"].update(reput=3, replace=5, set=4, edit_restore=4)
+        p["ops"].update(reput=3, replace=5, set=4, edit_restore=4, same_size_switch=2)
         p["big"] = 0.05
         p["huge_cell"] = 0.1
     elif prop == "C02":
@@ -54,6 +55,7 @@ def profile(prop):
     elif prop == "C05":
         p["kinds"] = list(gen.SEGMENTED)
         p["ops"].update(decode_twice=6, add=8, replace=6, set=4, remove=3, edit_restore=6)
+        p["between"].update(truncated_decode=0.5)
         p["gap_heavy"] = True
         p["init"] = {"new": 6, "foreign": 3, "foreign_garbage": 1, "foreign_hole": 0.1, "foreign_noncompact": 0.2,
                      "capture": 0.03}
@@ -62,7 +64,7 @@ def profile(prop):
         p["ops"].update(reput=2, edit_restore=2)
         p["huge_cell"] = 0.06
     elif prop == "C07":
-        p["ops"].update(reject_all=5, add=8, remove=4)
+        p["ops"].update(reject_all=5, add=8, remove=4, reject_some=0)
         p["n_choices"] = [14, 14, 2, 3, 5, 9]
         p["init"].update(foreign_hole=0.6)
         p["dup_add"] = 0.15
@@ -70,7 +72,7 @@ def profile(prop):
     elif prop == "C08":
         p["session"] = {"w": 5, "fresh": 1, "ro": 3, "out": 3, "armed_out": 3, "stale": 3}
         p["end"] = {"exit": 5, "exit_exc": 4, "kill": 0.5}
-        p["ops"].update(mode_matrix=6, read_w=3, read_obs=1, copy=1.5)
+        p["ops"].update(mode_matrix=6, read_w=3, read_obs=1, copy=1.5, enospc=1.0)
         p["between"].update(copy=0.5)
         p["files"] = [1, 2, 2]
         p["len"] = (6, 20)
@@ -87,6 +89,7 @@ def profile(prop):
         p["ops"].update(reput=3)
     elif prop == "C20":
         p["ops"].update(read_twice=8, add=8, remove=3, replace=3, set=3, read_obs=0.5, read_w=0.5)
+        p["huge_cell"] = 0.15
         p["session"] = {"w": 6, "fresh": 0.5, "ro": 4, "out": 0.2, "armed_out": 0.1, "stale": 0.2}
     elif prop == "C17":
         p["files"] = [2, 3, 3]
@@ -109,6 +112,8 @@ def wchoice(rng, weights):
 
 def clock_step(rng):
     r = rng.random()
+    if r < 0.12:
+        return 0  # the next operation happens within the same second
     if r < 0.5:
         return rng.randint(1, 120)
     if r < 0.8:
@@ -208,6 +213,8 @@ class Gen:
                 else:
                     C = self.block(exclude=used)
                     s = {"C": C}
+                    if C["t"] in gen.SEGMENTED and rng.random() < 0.25:
+                        s["run_order"] = "reversed"  # another writer's order of the runs
                     code = gen.code_of(C)
                 if code in used:
                     continue
@@ -239,7 +246,7 @@ class Gen:
             else:
                 C = self.block(exclude=set(pres))
             code = gen.code_of(C)
-            self.emit(op="add", f=f, C=C, comment=gen.comment(rng), f64=self.dt())
+            self.emit(op="add", f=f, C=C, comment=gen.comment(rng), f64=self.dt(), stamp=rng.random() < 0.8)
             if code not in pres and free > 0:
                 pres[code] = True
         elif kind == "remove":
@@ -255,12 +262,12 @@ class Gen:
                 C = self.block(only=dec)
             else:
                 C = self.block(exclude=set(pres))
-            self.emit(op="replace", f=f, C=C, comment=gen.comment(rng), f64=self.dt())
+            self.emit(op="replace", f=f, C=C, comment=gen.comment(rng), f64=self.dt(), stamp=rng.random() < 0.8)
         elif kind == "set":
             kinds = [k for k in ("data3d", "emg", "events", "ft", "fpdata") if k in self.p["kinds"]]
             C = self.block(kinds=kinds)
             code = gen.code_of(C)
-            self.emit(op="set", f=f, C=C, f64=self.dt())
+            self.emit(op="set", f=f, C=C, f64=self.dt(), stamp=rng.random() < 0.8)
             if code not in pres and free > 0:
                 pres[code] = True
         elif kind == "reput":
@@ -276,8 +283,18 @@ class Gen:
         elif k == "edit_restore":
             seg = [c for c, d in self.present[f].items() if d and c in (5, 11, 12, 9, 4, 16)]
             if seg:
-                self.emit(op="edit_restore", f=f, code=rng.choice(seg), source=rng.choice(("kept", "kept", "decoded")),
-                          via=rng.choice(("replace", "set")), seed=rng.randint(1, 10**9))
+                q = rng.random()
+                self.emit(op="edit_restore", f=f, code=rng.choice(seg),
+                          source=rng.choice(("kept", "kept", "decoded", "refused")),
+                          via=rng.choice(("replace", "set")), seed=rng.randint(1, 10**9),
+                          same_size=q < 0.25, stamp=q >= 0.25 and rng.random() < 0.8)
+                if q < 0.25:
+                    # same size, same second, same dates: the new entry equals the old one
+                    self.ops[-1]["clock"] = 0
+                    if rng.random() < 0.6:
+                        self.emit(op="read", f=f, who="writer", what=["get", "blocks"])
+                        self.ops[-1]["clock"] = 0
+                        self.ops[-2], self.ops[-1] = self.ops[-1], self.ops[-2]
             else:
                 self.mutation(f, "add")
         elif k == "read_obs":
@@ -295,8 +312,22 @@ class Gen:
             self.emit(op="reject_all", f=f, bases=bases)
         elif k == "mode_matrix":
             self.emit_matrix(f)
+        elif k == "enospc":
+            self.emit(op="enospc", f=f, C=self.block(exclude=set(self.present[f])))
+            return "ended"
         elif k == "read_twice":
             self.emit(op="read_twice", f=f, k=rng.randint(0, 9))
+        elif k == "same_size_switch":
+            self.emit(op="same_size_switch", f=f, stamp=rng.random() < 0.5)
+        elif k == "reject_some":
+            # a few refused requests in the middle of an ordinary session (state left by failed calls)
+            pres = [c for c, d in self.present[f].items() if d]
+            bases = [self.block(exclude=set(self.present[f]), min_items=2)]
+            if pres and rng.random() < 0.5:
+                bases.append(self.block(only=pres, min_items=2))
+            causes = rng.sample(["label_long", "label_enc", "comment_long", "comment_enc", "format", "wrong_obj",
+                                 "dup", "full", "replace_absent", "remove_absent"], 3)
+            self.emit(op="reject_all", f=f, bases=bases, only=causes)
         elif k == "decode_twice":
             ps = rng.sample(seams.POISONS[:4], 2)
             self.emit(op="decode_twice", f=f, poisons=ps)
@@ -361,6 +392,8 @@ class Gen:
                 self.emit(op="open_bad", f=g)
             elif k == "copy":
                 self.copy_op(f)
+            elif k == "truncated_decode":
+                self.emit(op="truncated_decode", f=f, k=rng.randint(1, 10**6), poisons=rng.sample(seams.POISONS[:4], 2))
             elif k == "sig_flip":
                 self.emit(op="sig_flip", f=f, how=rng.choice(("byte", "zero_sig", "zero_all")), k=rng.randint(0, 15),
                           via=rng.choice(("ctx", "ctx", "implicit")))
@@ -402,11 +435,21 @@ class Gen:
                         o["fresh"] = True
             elif kind == "w":
                 for _ in range(nops):
-                    self.session_op(f, True)
+                    if self.session_op(f, True) == "ended":
+                        in_ctx = False  # the disk filled up: that session is over
+                        prev_w[f] = True
+                        break
             else:
                 # wrong-mode sessions: the calls a user would make, all of which must be refused
                 if kind in ("ro", "stale") and self.p["ops"]["mode_matrix"] > 0 and rng.random() < 0.3:
                     self.emit(op="allow_write", f=f, inside=True)
+                if kind == "ro" and rng.random() < 0.25:
+                    n0 = len(self.ops)
+                    self.mutation(f, rng.choice(("add", "remove", "replace", "set")))
+                    for o in self.ops[n0:]:
+                        o["fresh"] = True
+                    if rng.random() < 0.6:
+                        self.copy_op(f)
                 for _ in range(min(nops, 3)):
                     r = rng.random()
                     if self.p["ops"].get("read_twice", 0) >= 1 and kind == "ro" and r < 0.7:
@@ -445,6 +488,8 @@ def gen_run(rng, prop, index, tier):
         "tz": rng.choice(seams.TZS),
         "epoch": rng.randint(86400 * 800, 2**31 - 86400 * 800),
         "paths": rng.choice(("str", "str", "Path", "mixed", "rel", "tilde")),
+        "filenos": rng.random() < 0.5,
+        "mtime_gran": rng.choice((1e-9, 1e-9, 1.0, 2.0)),
     }
     ops = Gen(rng, prof, index, tier, prop).run()
     return cfg, ops
